@@ -37,7 +37,7 @@ MR_SKIP = {"default": ("", 0, ""), "past": ("AFTER MATCH SKIP PAST LAST ROW ", 0
 MR_WITHIN = {"none": ("", 0), "quoted": ("WITHIN '5s' ", 5 * 10**6), "quotedfrac": ("WITHIN '1.5s' ", 1500000), "intsec": ("WITHIN 5 SECONDS ", 5 * 10**6),
              "fracsec": ("WITHIN 1.5 SECONDS ", 1500000), "fracmin": ("WITHIN 0.5 MINUTES ", 30 * 10**6), "ms": ("WITHIN 250 MS ", 250000), "fracms": ("WITHIN 2.5 ms ", 2500),
              "hours": ("WITHIN 2 HOURS ", 7200 * 10**6), "fracshort": ("WITHIN 0.25 h ", 900 * 10**6)}
-MR_PAT = {"seq": ("A B", 2), "quant": ("A{2,} B?", 2), "alt": ("A (B | C)+", 3)}
+MR_PAT = {"seq": ("A B", 2), "quant": ("A{2,} B?", 2), "alt": ("A (B | C)+", 3), "reluct": ("A+? B*? C{1,2}?", 3)}
 MR_DEF = {2: "A AS v > 0, B AS v < 0", 3: "A AS v > 0, B AS v < 0, C AS v = 0"}
 MR_SUBSET = {"none": ("", 0), "one": ("SUBSET S = (A, B) ", 1)}
 
@@ -144,7 +144,26 @@ def run(tier):
         mropts = rng.sample(mropts, 600)
     for o in mropts:
         txt, exp = build_mr(o)
-        scen.append({"meta": {"mode": "grammar", "exp": exp, "opts": o}, "texts": [relayout(txt, rng, st) for st in styles]})
+        texts = [relayout(txt, rng, st) for st in styles]
+        if o["pat"] == "reluct":      # the reluctant marker is a token of its own: blanks, tabs and line breaks before it are layout
+            texts += [re.sub(r"([*+}])\?", lambda m: m.group(1) + rng.choice([" ", "  ", "\n", "\t"]) + "?", t) for t in texts]
+        scen.append({"meta": {"mode": "grammar", "exp": exp, "opts": o}, "texts": texts})
+    # statements that differ ONLY inside a string literal (blanks, tabs, line breaks, letter case) are different statements: each keeps
+    # its own literal, whatever was parsed before in this process (all texts of a run are parsed by one process)
+    for base in ("line down", "ORDER BY x", "a, b"):
+        variants = {base, base.replace(" ", "  "), base.replace(" ", "\t"), base.replace(" ", "\n"), base.lower(), base.upper(), base + " ", " " + base, base.replace(" ", "")}
+        for lit in sorted(variants):
+            for shape in (0, 1, 2):
+                if shape == 0:
+                    txt = "SELECT id, v FROM stream WHERE status = '%s' AND v > 1" % lit
+                    exp = {"lits": [lit], "fields": ["id", "v"], "nsel": 2}
+                elif shape == 1:
+                    txt = "SELECT id, concat(name, '%s') AS c FROM stream WHERE v > 1" % lit
+                    exp = {"lits": [lit], "fields": ["id", "c"], "nsel": 2}
+                else:
+                    txt = "SELECT g, count(*) AS c, last_value(s) AS ls FROM stream GROUP BY g, CountingWindow(2) HAVING ls LIKE '%s'" % lit
+                    exp = {"lits": [lit], "fields": ["g", "c", "ls"], "nsel": 3}
+                scen.append({"meta": {"mode": "grammar", "exp": exp, "opts": {"litvariant": lit}}, "texts": [relayout(txt, rng, st) for st in styles]})
     ngr = len(scen)
     # totality: every token sequence up to length L, seeded long sequences, truncations and byte mutations of valid statements
     L = 3 if quick else 4
